@@ -341,6 +341,22 @@ def r4(ctx, R):
                 if nm and any(isinstance(x, ast.Compare) and isinstance(x.ops[0], ast.In) and "group(" in unparse(x.left) for x in ast.walk(n)) and "defined" in ctx.p.named[nm].text.lower():
                     uses.append((g, n, nm))
     if not uses:
+        # the pattern handed to a substitution helper / used with sub(): the statement about
+        # the pattern itself (balanced parentheses) does not depend on how it is applied
+        seen_nm = set()
+        evaluators = [g for g in nested_all(ctx, f) if any(isinstance(c.func, ast.Attribute) and c.func.attr == "parse" and unparse(c.func.value) == "ast" for c in calls_in(g.node))]
+        # calls_in looks into nested defs as well: keep the function(s) directly around the call,
+        # i.e. the one nested directly in the preprocessing function, with everything inside it
+        evaluators = [e for e in evaluators if e.parent == f.qual]
+        scope = [g for e in evaluators for g in nested_all(ctx, e)]
+        for g in scope:
+            for n in ctx.m.walk_own(g.node):
+                if isinstance(n, ast.Attribute):
+                    nm = ctx.p.fregex_ref(g.rel, n)
+                    if nm and nm not in seen_nm and "defined" in ctx.p.named[nm].text.lower():
+                        seen_nm.add(nm)
+                        uses.append((g, None, nm))
+    if not uses:
         raise AnalysisError("pattern rewriting the defined operator not found")
     for g, n, nm in uses:
         rx_ = ctx.p.named[nm]
@@ -357,7 +373,11 @@ def r4(ctx, R):
         else:
             R.ok("C08.R4", g.short, f"FRegex.{nm} = {rx_.text!r}", loc(rx_.rel, rx_.node), f"parenthesis skeletons {sorted(sk)}")
         # the name tested is the identifier group
-        cmp_ = next(x for x in ast.walk(n) if isinstance(x, ast.Compare) and isinstance(x.ops[0], ast.In) and "group(" in unparse(x.left))
+        cmps = [x for gg in nested_all(ctx, f) for x in ctx.m.walk_own(gg.node) if isinstance(x, ast.Compare) and isinstance(x.ops[0], ast.In) and "group(" in unparse(x.left) and any(isinstance(c.args[0].value, str) for c in ast.walk(x.left) if isinstance(c, ast.Call) and isinstance(c.func, ast.Attribute) and c.func.attr == "group" and c.args and isinstance(c.args[0], ast.Constant))] if n is None else []
+        if n is None and not cmps:
+            R.undecided("C08.R4", g.short, "macro-name group", loc(rx_.rel, rx_.node), "the look-up of the matched name in the macro table was not recognised")
+            continue
+        cmp_ = cmps[0] if n is None else next(x for x in ast.walk(n) if isinstance(x, ast.Compare) and isinstance(x.ops[0], ast.In) and "group(" in unparse(x.left))
         garg = next((c.args[0].value for c in ast.walk(cmp_.left) if isinstance(c, ast.Call) and isinstance(c.func, ast.Attribute) and c.func.attr == "group" and c.args and isinstance(c.args[0], ast.Constant)), 0)
         gid = rx_.tree.state.groupdict.get(garg, garg) if isinstance(garg, str) else garg
         node = rex.group_node(rx_.tree, gid) if gid else None
@@ -525,12 +545,17 @@ def r7(ctx, R):
     arms = {}
     opening = None
     for n in ctx.m.walk_own(f.node):
-        if isinstance(n, ast.If) and isinstance(n.test, ast.Compare) and isinstance(n.test.comparators[0], ast.Constant) and isinstance(n.test.comparators[0].value, str) and ".group(1)" in unparse(n.test.left):
-            kw = n.test.comparators[0].value.strip()
-            if kw in ("elif", "else", "endif"):
-                arms[kw] = n
-        if isinstance(n, ast.If) and isinstance(n.test, ast.Name) and any(isinstance(b, ast.Continue) for b in n.body) and _count(n, stack, group)[0] > 0:
-            opening = n
+        if isinstance(n, ast.If) and isinstance(n.test, ast.Compare) and len(n.test.ops) == 1 and isinstance(n.test.ops[0], ast.Eq) and isinstance(n.test.comparators[0], ast.Constant) and isinstance(n.test.comparators[0].value, str):
+            # the directive word: match.group(1).lower(), possibly bound to a local first
+            left = deref(ctx, f, n.test.left)
+            if ".group(1)" in unparse(left):
+                kw = n.test.comparators[0].value.strip()
+                if kw in ("elif", "else", "endif"):
+                    arms[kw] = n
+        # the arm that opens a conditional: pushes onto the stack and goes on to the next line
+        if isinstance(n, ast.If) and not n.orelse and any(isinstance(b, ast.Continue) for b in n.body) and _count(n, stack, group)[0] > 0 and not (isinstance(n.test, ast.Compare) and any(isinstance(x, ast.Constant) and isinstance(x.value, str) for x in ast.walk(n.test))):
+            if opening is None or any(x is n for x in ast.walk(opening)):
+                opening = n
     if set(arms) != {"elif", "else", "endif"} or opening is None:
         raise AnalysisError(f"preprocess_file: conditional arms not identified ({sorted(arms)}, opening={opening is not None})")
     grp_test = next((s_ for b_ in arms["endif"].body for s_ in ast.walk(b_) if isinstance(s_, ast.If) and _count(ast.Module(body=s_.body, type_ignores=[]), stack, group)[1] > 0), None)
